@@ -11,7 +11,7 @@ RULE = ("A catalogue of size-parameterised families (47 load families, a few thr
         "and on many lines, escapes, many block and flow entries, single-line flow collections, nested flow in block, many "
         "documents, many anchors and aliases, many aliases to one large node, doubling alias chains, long and many comments, "
         "blank runs, space runs, long explicit keys, simple keys up to the 1024 limit, tags, merges, ints/floats/timestamps, "
-        "binary, empty values, deep-ish nesting at fixed depth; 23 dump families: lists, dicts, sets, long strings per style, "
+        "binary, empty values, deep-ish nesting at fixed depth; 25 dump families: lists, dicts, sets, long strings per style, "
         "multi-line strings, shared sub-objects, unicode, binary, control characters, quotes, floats) each instantiated with "
         "template parameters drawn by Hypothesis (filler word, line break, indent, key length, dump options) at sizes n, 2n, "
         "4n. Oracle: calls(x) = number of Python-level frame entries (sys.monitoring PY_START and PY_RESUME, i.e. what sys.setprofile reports as 'call') during safe_load / "
@@ -117,6 +117,8 @@ DUMP = [
     ("long-keys", 300, lambda n, p: {("k%d " % i) * 40: i for i in range(n)}),
     ("breaks-mixed", 1000, lambda n, p: ("a\r\nb\x85c d\n") * n),
     ("list-of-dicts", 500, lambda n, p: [{"a": i, "b": p["word"]} for i in range(n)]),
+    ("mixed-unorderable-keys-descending", 700, lambda n, p: dict([(i, p["word"]) for i in range(n, 0, -1)] + [("s", 1), (None, 2)])),
+    ("mixed-unorderable-set", 700, lambda n, p: set(list(range(n, 0, -1)) + ["s", None])),
     ("long-tuple-as-first-key", 1000, lambda n, p: {tuple(range(n)): "v", "z": 1}),
     ("many-tuple-keys", 500, lambda n, p: {(i, p["word"]): i for i in range(n)}),
     ("deep-first-keys", 300, lambda n, p: {((tuple(range(n)), 1), 2): "v"}),
